@@ -16,7 +16,9 @@ DevDecode(e) == IF Dev_NarrowingWraps(e) THEN "Dev_NarrowingWraps"
 \* ... and re-marshaling the accepted resource gives the attribute back as the same JSON value (a
 \* byte string accepted in a non-canonical spelling, or given as an array, comes back canonical)
 RemarshalOK(e) == (e.r.out = "accept" /\ e.lit.cls \notin {"b64nc", "arr"}) => e.r.remarshal_ok
-Fidelity(e) == e.r.out = "panic" \/ (DecodeOK(e.kind, e.null, e.lit, e.r) /\ RemarshalOK(e))
+\* ... and the value is the caller's own: writing over it does not change what the next payload decodes to
+OwnValue(e) == e.r.out = "accept" => e.r.again_same
+Fidelity(e) == e.r.out = "panic" \/ (DecodeOK(e.kind, e.null, e.lit, e.r) /\ RemarshalOK(e) /\ OwnValue(e))
 
 Init == l = 1
 Next == /\ l <= Len(Trace)
